@@ -34,7 +34,7 @@ def run(module, cfg, env=None, workers='auto', simulate=None, depth=None, seed=N
     """Run TLC on spec/<module>.tla with spec/<cfg>. Returns TLCResult. Payload lines are the
     strings TLC prints through PrintT that start with `marker` (quotes stripped, unescaped)."""
     meta = engine.sub_dir('tlc-%s-%d' % (os.path.basename(module).replace('.tla', ''), int(time.time() * 1000) % 10**9))
-    cmd = ['java', '-XX:+UseParallelGC', '-Xmx8g', '-Xss64m', '-DTLA-Library=' + SPEC]     # generated modules (absolute path) extend spec/ modules
+    cmd = ['java', '-XX:+UseParallelGC', '-Xmx8g', '-Xss64m', '-DTLA-Library=' + SPEC, '-Djava.io.tmpdir=' + meta]   # TLC's own scratch (tlc-<n>) stays in ours     # generated modules (absolute path) extend spec/ modules
     if dfs:
         cmd.append('-Dtlc2.tool.queue.IStateQueue=StateDeque')
     cmd += ['-cp', JARS, 'tlc2.TLC', '-metadir', meta, '-noGenerateSpecTE', '-config', os.path.join(SPEC, cfg)]
